@@ -663,6 +663,8 @@ func (ex *Exec) call(caller *frame, fn Value, args []Value, pos token.Pos) Value
 		return ex.callSSA(caller, fn.fn, args, fn.env)
 	case *ssa.Builtin:
 		return ex.callBuiltin(caller, fn, args)
+	case *boundCall:
+		return ex.call(caller, fn.fn, fn.args, pos)
 	case nil:
 		ex.throw("invalid memory address or nil pointer dereference (nil func)")
 	}
@@ -1232,7 +1234,7 @@ func (ex *Exec) spawn(fr *frame, fn Value, args []Value) {
 		ex.pending = append(ex.pending, func() { ex.call(nil, fn, args, token.NoPos) })
 	case "drop":
 	case "threads":
-		ex.threads.spawn(ex, fn, args)
+		ex.sched().spawn(ex, fn, args)
 	default:
 		panic(engineErr("unknown go mode %q", ex.goMode))
 	}
